@@ -115,9 +115,10 @@ theorem LK.of_eq {a a' : Agent} (hl : a'.locals = a.locals) (hr : a'.remotes = a
 
 /-- `modPair id f`: `f` keeps id and ends, keeps validity and the two nomination marks on the pairs it is applied
 to, and validates a pair only if its ends are listed. -/
-theorem LK.modPair (a : Agent) (id : Nat) (f : Pair → Pair)
+theorem LK.modPair_sel (a : Agent) (id : Nat) (f : Pair → Pair)
     (hid : ∀ p, (f p).id = p.id) (hl : ∀ p, (f p).l = p.l) (hr : ∀ p, (f p).r = p.r)
-    (hnomOn : ∀ p, p.nomOnSuccess = true → (f p).nomOnSuccess = true)
+    (hnomOn : ∀ p ∈ a.checklist, p.id = id → p.nomOnSuccess = true →
+      (f p).nomOnSuccess = true ∨ (LInv a → a.selected.isSome = true))
     (hsucc : ∀ p ∈ a.checklist, p.id = id → p.state = .succeeded → (f p).state = .succeeded)
     (hdef : ∀ p ∈ a.checklist, p.id = id → p.deferredNom = none → (f p).deferredNom = none)
     (hends : LInv a → ∀ p ∈ a.checklist, p.id = id → (f p).state = .succeeded →
@@ -129,7 +130,7 @@ theorem LK.modPair (a : Agent) (id : Nat) (f : Pair → Pair)
     intro p hp
     by_cases e : p.id = id
     · simp only [e, beq_self_eq_true, if_true]
-      exact ⟨hid p, hl p, hr p, hsucc p hp e, hnomOn p⟩
+      exact ⟨hid p, hl p, hr p, hsucc p hp e, hnomOn p hp e⟩
     · have e' : (p.id == id) = false := by simpa using e
       simp only [e', Bool.false_eq_true, if_false]
       exact PKeep.refl p
@@ -158,6 +159,16 @@ theorem LK.modPair (a : Agent) (id : Nat) (f : Pair → Pair)
         · have e' : (p.id == id) = false := by simpa using e
           simp only [e', Bool.false_eq_true, if_false]
           exact hps
+
+theorem LK.modPair (a : Agent) (id : Nat) (f : Pair → Pair)
+    (hid : ∀ p, (f p).id = p.id) (hl : ∀ p, (f p).l = p.l) (hr : ∀ p, (f p).r = p.r)
+    (hnomOn : ∀ p, p.nomOnSuccess = true → (f p).nomOnSuccess = true)
+    (hsucc : ∀ p ∈ a.checklist, p.id = id → p.state = .succeeded → (f p).state = .succeeded)
+    (hdef : ∀ p ∈ a.checklist, p.id = id → p.deferredNom = none → (f p).deferredNom = none)
+    (hends : LInv a → ∀ p ∈ a.checklist, p.id = id → (f p).state = .succeeded →
+      p.state = .succeeded ∨ ((a.localOf p.l).isSome = true ∧ (a.remoteOf p.r).isSome = true)) :
+    LK T0 now ex a (a.modPair id f) :=
+  LK.modPair_sel a id f hid hl hr (fun p _ _ h => Or.inl (hnomOn p h)) hsucc hdef hends
 
 /-- `f` touches neither id, ends, state nor the nomination marks (counters, ghost flags, `nominated`) -/
 theorem LK.modPair_keep (a : Agent) (id : Nat) (f : Pair → Pair)
